@@ -423,6 +423,10 @@ func unmarshalDynamic(buf []byte, path cty.Path) (cty.Value, error) {
 		return cty.NilVal, path.NewErrorf("missing value in dynamically-typed value")
 	}
 
+	// Optional attributes are meaningful only in type constraints used for
+	// conversion; the type of a value never carries them.
+	t = t.WithoutOptionalAttributesDeep()
+
 	val, err := Unmarshal([]byte(valBody), t)
 	if err != nil {
 		return cty.NilVal, path.NewError(err)
